@@ -89,11 +89,21 @@ func genDatasetOp(r *rng.R, path string, allowChunk bool, typeSet []string) trac
 			op.EnumV = append(op.EnumV, int64(i*3))
 		}
 	case op.DType == "Opaque":
-		op.OpqTag = rng.Pick(r, []string{"tag", "JPEG", "x"})
+		op.OpqTag = rng.Pick(r, []string{"tag", "JPEG", "x", "ABCDEFGH", "0123456789ABCDEF", "seven77"})
 		op.OpqSize = uint32(r.Range(1, 9))
 	}
 	if allowChunk && r.Chance(0.5) {
 		op.Chunk = genChunk(r, op.Dims)
+	}
+	if allowChunk && r.Chance(0.04) {
+		// many chunks: a chunk index of several hundred entries, more than ten
+		// chunks along two dimensions (index keys, node capacity, multi-digit coordinates)
+		op.Dims = []uint64{uint64(r.Range(12, 40)), uint64(r.Range(11, 24))}
+		op.Chunk = []uint64{uint64(r.Range(1, 2)), uint64(r.Range(1, 2))}
+		if r.Chance(0.3) {
+			op.Dims = []uint64{uint64(r.Range(256, 700))}
+			op.Chunk = []uint64{uint64(r.Range(1, 2))}
+		}
 	}
 	return op
 }
